@@ -351,6 +351,7 @@ func (x *Exec) execBlock(st *State, fr *Frame, b *ssa.BasicBlock, prev *ssa.Basi
 				// it does not decrease (an invariant of the iterator model, not of the program)
 				if b, ok := before.(T); ok {
 					if a, ok := st.Heap[o].(T); ok && a.So == SInt && b.So == SInt {
+						x.e.note("the position of a store iterator only advances (a fact of the iterator model, assumed at every loop cut)")
 						st.assume(Ge(a, b), "iterator position only advances")
 					}
 				}
@@ -488,6 +489,7 @@ func (x *Exec) assumeRangeIndex(st *State, fr *Frame, b *ssa.BasicBlock, phi *ss
 			if !ok1 || !ok2 || idx.So != SInt || n.So != SInt {
 				return
 			}
+			x.e.note("the hidden index of a for-range over a slice is -1 or below the length taken before the loop (a fact of the SSA lowering, assumed at every loop cut)")
 			st.assume(And(Ge(idx, IntLit(-1)), Or(Eq(idx, IntLit(-1)), Lt(idx, n))), "range index of the SSA range loop")
 			return
 		}
